@@ -169,7 +169,7 @@ func fileNameID(s string) int {
 // program generator
 
 type quirks struct {
-	site, evalStale, noAt, noFile, term, char bool
+	site, evalStale, noAt, noFile, term, char, implicit bool
 }
 
 type lvl struct {
@@ -214,17 +214,23 @@ var GS = { get x() { return zz }, set y(v) { zz }, get z() { return ok() }, set 
 function evThrow() { try { eval("zz") } catch (e) { return 1 } } function evFin() { try { eval("null.x") } finally { return 1 } }
 function evCatch() { try { eval("U()") } catch (e) {} return ok() } function evLeak() { eval("\n zz") } function w0() { zz }
 var EV = eval; var BAD = {toString: 1, valueOf: 1}; var FROZEN = Object.freeze({a: 1}); var __r;
-function __facts(e) {
+var __facts = (function () {
+  // the built-ins as they were before any script could rebind them
   var names = ["Error","EvalError","RangeError","ReferenceError","SyntaxError","TypeError","URIError"];
   var ctors = [Error, EvalError, RangeError, ReferenceError, SyntaxError, TypeError, URIError];
-  if (e === null || typeof e !== "object") { return "0,0,0,0,0,0" + "\u0001" + String(e) + "\u0001\u0001\u0001"; }
-  var k = names.indexOf(e.name), C = ctors[k];
-  return [k + 1, (C && e instanceof C) ? 1 : 0, (e instanceof Error) ? 1 : 0,
-          (C && Object.getPrototypeOf(e) === C.prototype && e.constructor === C) ? 1 : 0,
-          (Object.prototype.toString.call(e) === "[object Error]") ? 1 : 0,
-          (typeof e.message === "string" && e.message.length > 0) ? 1 : 0].join(",") +
-         "\u0001" + String(e) + "\u0001" + e.name + "\u0001" + e.message + "\u0001" + e.stack;
-}`
+  var protos = [Error.prototype, EvalError.prototype, RangeError.prototype, ReferenceError.prototype, SyntaxError.prototype, TypeError.prototype, URIError.prototype];
+  var gpo = Object.getPrototypeOf, ots = Object.prototype.toString, ets = Error.prototype.toString, S = String;
+  return function (e) {
+    if (e === null || typeof e !== "object") { return "0,0,0,0,0,0" + "\u0001" + S(e) + "\u0001\u0001\u0001"; }
+    var k = names.indexOf(e.name), C = ctors[k];
+    return [k + 1, (C && e instanceof C) ? 1 : 0, (e instanceof ctors[0]) ? 1 : 0,
+            (C && gpo(e) === protos[k] && C.prototype === protos[k] && e.constructor === C && gpo(protos[k]) === (k ? protos[0] : Object.prototype)) ? 1 : 0,
+            (ots.call(e) === "[object Error]") ? 1 : 0,
+            (typeof e.message === "string" && e.message.length > 0) ? 1 : 0].join(",") +
+           "\u0001" + ets.call(e) + "\u0001" + e.name + "\u0001" + e.message + "\u0001" + e.stack;
+  };
+})();
+`
 
 // host functions that re-enter the runtime (and swallow what happens there)
 func setHost(vm *otto.Otto) {
@@ -475,6 +481,15 @@ func (p *prog) plan(scopes int) {
 		s := &step{n: p.counter, nativeLvl: -1}
 		k := r.Intn(20)
 		switch {
+		case p.q.implicit && r.Intn(3) == 0:
+			// a function entered without a call expression of its caller
+			s.what = "implicit"
+			s.def = Pick(r, []string{"getlit", "setlit", "getdef", "setdef", "valueof", "tostring"})
+			if p.lib != nil && r.Intn(2) == 0 {
+				s.file = p.lib
+			} else {
+				s.file = p.main
+			}
 		case k < 9:
 			s.what = "decl"
 			s.def = Pick(r, []string{"decl", "decl", "varanon", "varnamed", "methanon", "methnamed"})
@@ -566,6 +581,40 @@ func (p *prog) define(si int) {
 		w.w("};")
 	}
 	w.w("\n")
+	p.sep(w)
+}
+
+// top-level definition of an object whose accessor / conversion method is the next frame
+func (p *prog) defineImplicit(si int) {
+	s := p.steps[si]
+	w := s.file
+	nm, id := "", 0
+	tail := "} };"
+	switch s.def {
+	case "getlit":
+		w.w(fmt.Sprintf("var G%d = { k: 1, get x() {", s.n))
+	case "setlit":
+		w.w(fmt.Sprintf("var G%d = { set x(v) {", s.n))
+	case "getdef", "setdef":
+		nm, id = userName("g", s.n)
+		w.w(fmt.Sprintf("var G%d = {}; ", s.n))
+		if w == p.main { // a call made by the global code of the main file, before its last statement
+			p.levels[0].events = append(p.levels[0].events, ev("KDot", w.here()))
+		}
+		w.w(fmt.Sprintf("Object.defineProperty(G%d, \"x\", { %s: function %s(v) {", s.n, s.def[:3], nm))
+		tail = "} });"
+	case "valueof":
+		nm, id = userName("g", s.n)
+		w.w(fmt.Sprintf("var G%d = { valueOf: function %s() {", s.n, nm))
+	default:
+		nm, id = userName("g", s.n)
+		w.w(fmt.Sprintf("var G%d = { toString: function %s() {", s.n, nm))
+	}
+	p.levels[s.fnLvl].kind = fnKind(id, w)
+	p.sep(w)
+	p.body(w, s.fnLvl, si+1, true, false)
+	p.sep(w)
+	w.w(tail + "\n")
 	p.sep(w)
 }
 
@@ -682,6 +731,27 @@ func (p *prog) emitCall(w *fileBuf, li, si int) {
 		p.levels[s.nativeLvl].kind = fmt.Sprintf("LvNative %d", nameIDs[name])
 	}
 	switch s.what {
+	case "implicit":
+		g := fmt.Sprintf("G%d", s.n)
+		var form string
+		switch s.def {
+		case "getlit", "getdef":
+			form = Pick(r, []string{"¤.x", "¤[\"x\"]", "1 + ¤.x", "[¤.x]"})
+		case "setlit", "setdef":
+			form = Pick(r, []string{"¤.x = 1", "¤[\"x\"] = 2", "¤.x += 1"})
+			if s.def == "setlit" || strings.Contains(form, "+=") && s.def == "setdef" {
+				form = Pick(r, []string{"¤.x = 1", "¤[\"x\"] = 2"})
+			}
+		case "valueof":
+			form = Pick(r, []string{"¤ + 1", "-¤", "¤ < 1", "¤ * 2", "+¤", "¤ == 1", "1 - ¤", "¤ >> 1", "[1, 2][¤ - 0]"})
+		default:
+			form = Pick(r, []string{"\"\" + ¤", "¤ + \"s\"", "O[¤]", "¤ in O", "¤ == \"s\""})
+		}
+		i := strings.Index(form, "¤")
+		w.w(form[:i])
+		at := w.here()
+		lv.events = append(lv.events, fmt.Sprintf("EvImplicit %d %d %d", at.idx, at.line, at.col))
+		w.w(g + form[i+len("¤"):])
 	case "decl":
 		ref, form := fmt.Sprintf("f%d", s.n), "KIdent"
 		if strings.HasPrefix(s.def, "meth") {
@@ -1114,11 +1184,14 @@ func pickQuirks(r *rand.Rand) (quirks, string) {
 	case k < 15:
 		return quirks{noFile: true}, "nofile"
 	case k < 16:
+		if r.Intn(2) == 0 {
+			return quirks{implicit: true}, "implicit"
+		}
 		return quirks{term: true}, "term"
 	case k < 17:
 		return quirks{char: true}, "char"
 	default:
-		return quirks{site: r.Intn(2) == 0, evalStale: r.Intn(2) == 0, noAt: r.Intn(2) == 0, noFile: r.Intn(3) == 0, term: r.Intn(3) == 0, char: r.Intn(3) == 0}, "mixed"
+		return quirks{site: r.Intn(2) == 0, evalStale: r.Intn(2) == 0, noAt: r.Intn(2) == 0, noFile: r.Intn(3) == 0, term: r.Intn(3) == 0, char: r.Intn(3) == 0, implicit: r.Intn(2) == 0}, "mixed"
 	}
 }
 
@@ -1284,6 +1357,15 @@ func pinnedProgram(r *rand.Rand, k int) *prog {
 		at := wrap("¤Function(\"zz\").call(null)")
 		g.events = append(g.events, ev("KIdent", at), ev("KDot", at))
 		p.levels = append(p.levels, &lvl{kind: fmt.Sprintf("LvNative %d", nameIDs["call"])}, &lvl{kind: fmt.Sprintf("LvFuncNoFile 0 %d", ef.table)})
+	case 10: // getter entered from f1: f1 is an active call and has to show in the trace
+		p.kind = 10
+		w.w("var G1 = { get x() { ")
+		p.raise = rat(mark(w, "¤zz; } };\nfunction f1(a, b) {\n  return "))
+		at := w.here()
+		f1.events = append(f1.events, fmt.Sprintf("EvImplicit %d %d %d", at.idx, at.line, at.col))
+		w.w("G1.x;\n}\n")
+		g.events = append(g.events, ev("KIdent", wrap("¤f1()")))
+		p.levels = append(p.levels, f1, &lvl{kind: "LvFunc 0 0"})
 	case 8:
 		p.kind = 10
 		w.w("1;\r2; ")
@@ -1337,6 +1419,8 @@ func randomProgram(r *rand.Rand) (*prog, string) {
 	for i := len(p.steps) - 1; i >= 0; i-- {
 		if p.steps[i].what == "decl" {
 			p.define(i)
+		} else if p.steps[i].what == "implicit" {
+			p.defineImplicit(i)
 		}
 	}
 	p.levels[0].kind = fmt.Sprintf("LvGlobal %d", p.main.table)
@@ -1907,6 +1991,114 @@ func genEval(env *Env, pinned int) {
 		fmt.Sprintf("evalorder #%d %q -> %q log=[%s] caught=%v", sc.id, src, errText, lg1, o2.Val), "evalorder", true)
 }
 
+
+// ---------------------------------------------------------------------------
+// interpreter-raised errors in runtimes whose error constructors were rebound, deleted or shadowed
+
+var shadowRaises = []struct {
+	kind int
+	js   string
+}{
+	{1, "U()"}, {2, "O.nope()"}, {5, "new U"}, {6, "new Math.max()"}, {7, "null.x"}, {7, "U.x"}, {8, "NUL[\"x\"]"}, {9, "U.x = 1"},
+	{10, "zz"}, {10, "1 + zq9"}, {11, "zz()"}, {12, "new Array(-1)"}, {13, "ARR.length = 1.5"}, {14, "NUM.toString(1)"},
+	{15, "NUM.toFixed(-1)"}, {17, "NUM.toPrecision(0)"}, {18, "eval(\"var x = ;\")"}, {19, "new Function(\"return +;\")"},
+	{21, "1 instanceof 2"}, {22, "O instanceof O"}, {23, "\"a\" in 1"}, {24, "JSON.stringify(CYC)"}, {25, "JSON.parse(\"{\")"},
+	{26, "new RegExp(\"(\")"}, {27, "new RegExp(\"a\", \"gg\")"}, {28, "decodeURIComponent(\"%\")"}, {29, "Object.keys(1)"},
+	{30, "Function.prototype.call.call(1)"}, {31, "Date.prototype.getTime.call({})"}, {32, "Object.defineProperty({}, \"x\", {get: 1})"},
+	{33, "BAD + \"\""}, {34, "Object.prototype.hasOwnProperty.call(null, \"x\")"}, {35, "[1].forEach(1)"},
+	{36, "Object.defineProperty(FROZEN, \"a\", {value: 2})"},
+}
+
+func genShadow(env *Env, pinned int) {
+	r := env.Rng
+	rs := Pick(r, shadowRaises)
+	names := []string{"Error", "EvalError", "RangeError", "ReferenceError", "SyntaxError", "TypeError", "URIError"}
+	// 1-3 tamperings of the global bindings, run before the raise
+	var tamper []string
+	for k := 1 + r.Intn(3); k > 0; k-- {
+		n := Pick(r, names)
+		if r.Intn(2) == 0 {
+			n = Pick(r, []string{"TypeError", "ReferenceError", "RangeError", "SyntaxError"})
+		}
+		tamper = append(tamper, Pick(r, []string{
+			n + " = function Shim(m) { this.message = m };",
+			n + " = 1;",
+			n + " = undefined;",
+			"delete this." + n + ";",
+			n + " = {prototype: {name: \"Fake\"}};",
+			"var " + n + " = Object;",
+			n + " = function () {}; " + n + ".prototype = new Array();",
+			"this[\"" + n + "\"] = Date;",
+		}))
+	}
+	if r.Intn(4) == 0 {
+		tamper = append([]string{"Error.prototype.toString = function () { return \"hacked\" };"}, tamper...)
+	}
+	if r.Intn(4) == 0 {
+		tamper = append([]string{Pick(r, []string{"TypeError.prototype.constructor.prototype;", "Error.captureStackTrace = 1;", "Error.stackTraceLimit = 0;"})}, tamper...)
+	}
+	if pinned == 1 {
+		rs = shadowRaises[4]
+		tamper = []string{"TypeError = function Shim(m) { this.message = m };"}
+	}
+	// where the raise sits: global code, or under a local shadow of the names
+	n1, n2 := Pick(r, names[1:]), Pick(r, names)
+	shells := [][2]string{
+		{"", ""},
+		{"sh(); function sh() { var " + n1 + " = 5, " + n2 + "; ", " }"}, // the call comes first: same position in both variants
+		{"with ({" + n1 + ": 1, " + n2 + ": function () {}}) { ", " }"},
+		{"try { throw 1 } catch (" + n1 + ") { ", " }"},
+		{"(function (" + n1 + ", " + n2 + ") { ", " })(1, 2);"},
+	}
+	sh := Pick(r, shells)
+	if pinned == 1 {
+		sh = shells[0]
+	}
+	if n1 == n2 {
+		sh = shells[0]
+	}
+	head := strings.Join(tamper, "\n") + "\n" + sh[0]
+	uncaught := head + "/*--*/ " + rs.js + ";" + sh[1]
+	caught := head + "try  { " + rs.js + " } catch (e) { __r = __facts(e) }" + sh[1]
+	run := func(src string) (Outcome, string) {
+		vm := otto.New()
+		_ = RunJS(vm, prelude)
+		o := RunJS(vm, src)
+		facts := ""
+		if fv, err := vm.Get("__r"); err == nil && fv.IsString() {
+			facts = fv.String()
+		}
+		return o, facts
+	}
+	o1, _ := run(uncaught)
+	o2, facts := run(caught)
+	r1 := resultOf(o1)
+	obs := []int64{ErrClass(o1), 0, 0, 0, 0, 0, 0, 0, 0}
+	if o2.Err != nil || o2.Panic != nil {
+		obs[1] = 9
+	}
+	parts := strings.Split(facts, "\u0001")
+	if len(parts) == 5 && obs[1] == 0 {
+		fs := strings.Split(parts[0], ",")
+		for i := 0; i < 6 && i < len(fs); i++ {
+			v, _ := strconv.Atoi(fs[i])
+			obs[1+i] = int64(v)
+		}
+		want := parts[2] + ": " + parts[3]
+		if obs[6] == 0 {
+			want = parts[2]
+		}
+		if parts[1] == want && parts[1] == r1.errText {
+			obs[7] = 1
+		}
+		if parts[4] == r1.str && r1.isOtto {
+			obs[8] = 1
+		}
+	}
+	env.Add(fmt.Sprintf("CFacts %d %s", rs.kind, Czlist(obs)),
+		fmt.Sprintf("shadow kind=%d %q -> Error()=%q in-script=%q", rs.kind, caught, r1.errText, facts), "facts/shadow", true)
+}
+
 // ---------------------------------------------------------------------------
 // in / instanceof with operands whose conversion methods log and throw
 
@@ -2302,20 +2494,22 @@ func genFileSet(env *Env, pinned int) {
 
 func runC19(env *Env) {
 	env.Import = "Otto.C19.Corr"
-	env.Rule = "programs: an error-raising construct of one of 51 kinds placed by a position-tracking generator inside 0-14 nested frames (declared/anonymous/named function expressions, methods, constructors, call/apply/bind, callbacks of 11 built-ins, IIFEs, direct and indirect eval, Function()), 0-3 earlier statements per frame (calls of every callee form, completed evals, caught errors), up to two named files plus eval texts, trace limits -3..15 correlated with the depth, optionally through Otto.Copy; plus the argument-dependent raises (toString radix, toFixed/toExponential/toPrecision digits, new Array(len), length = len) over boundary arguments (range ends, fractions, residues of the legal range modulo 2^31/2^32/2^53/2^63/2^64, negatives, NaN, infinities, numeric strings, objects with valueOf/toString) in both directions; `in`/`instanceof` with operands whose conversion methods log and throw (5 left x 4 right operand kinds, both operators: outcome, class facts and the conversion log); 50 scenarios in which both an early and a late error are possible (new, call, member call, in, instanceof, delete, subscripts, assignment, compound assignment, literals: which error wins by class and position, and the log of side effects); earlier statements of every frame include direct evals left normally and by throws caught in the same activation (also through finally), indirect eval, Function(), callbacks, getters/setters and host functions that re-enter Run/Eval/Call; sessions of 2-4 programs on one runtime (also the same texts under other file names, through Run, Compile and Script objects) whose retained errors (Go *otto.Error and caught JS error objects) are all inspected only after the last one was raised; file.Position on random texts/offsets, parser positions of an offending token, uncaught text after name/message mutations, FileSet.Position; non-trivial = distinct case with at least one call frame (traces) or a line break (positions); all text/fileset/facts cases"
+	env.Rule = "programs: an error-raising construct of one of 51 kinds placed by a position-tracking generator inside 0-14 nested frames (declared/anonymous/named function expressions, methods, constructors, call/apply/bind, callbacks of 11 built-ins, IIFEs, direct and indirect eval, Function()), 0-3 earlier statements per frame (calls of every callee form, completed evals, caught errors), up to two named files plus eval texts, trace limits -3..15 correlated with the depth, optionally through Otto.Copy; plus the argument-dependent raises (toString radix, toFixed/toExponential/toPrecision digits, new Array(len), length = len) over boundary arguments (range ends, fractions, residues of the legal range modulo 2^31/2^32/2^53/2^63/2^64, negatives, NaN, infinities, numeric strings, objects with valueOf/toString) in both directions; `in`/`instanceof` with operands whose conversion methods log and throw (5 left x 4 right operand kinds, both operators: outcome, class facts and the conversion log); frames entered implicitly (getter/setter of object literals and defineProperty, valueOf/toString of converting operators) in any position of the chain; interpreter-raised errors of 34 forms caught in runtimes whose global error constructors were rebound, deleted or shadowed (local var, with-object, catch variable, parameters) and whose Error.prototype.toString was replaced, judged against the built-ins saved beforehand; 50 scenarios in which both an early and a late error are possible (new, call, member call, in, instanceof, delete, subscripts, assignment, compound assignment, literals: which error wins by class and position, and the log of side effects); earlier statements of every frame include direct evals left normally and by throws caught in the same activation (also through finally), indirect eval, Function(), callbacks, getters/setters and host functions that re-enter Run/Eval/Call; sessions of 2-4 programs on one runtime (also the same texts under other file names, through Run, Compile and Script objects) whose retained errors (Go *otto.Error and caught JS error objects) are all inspected only after the last one was raised; file.Position on random texts/offsets, parser positions of an offending token, uncaught text after name/message mutations, FileSet.Position; non-trivial = distinct case with at least one call frame (traces) or a line break (positions); all text/fileset/facts cases"
 	pins := []func(){}
 	for k := 1; k <= 9; k++ {
 		k := k
 		pins = append(pins, func() { genProgram(env, k) })
 	}
-	pins = append(pins, func() { genEval(env, 4) }, func() { genEval(env, 44) }, func() { genOrder(env, 1) }, func() { genArg(env, 1) }, func() { genPos(env, 1) }, func() { genPos(env, 2) }, func() { genSyntax(env, 1) },
+	pins = append(pins, func() { genShadow(env, 1) }, func() { genProgram(env, 10) }, func() { genEval(env, 4) }, func() { genEval(env, 44) }, func() { genOrder(env, 1) }, func() { genArg(env, 1) }, func() { genPos(env, 1) }, func() { genPos(env, 2) }, func() { genSyntax(env, 1) },
 		func() { genText(env, 1) }, func() { genFileSet(env, 1) })
 	for _, f := range pins {
 		f()
 	}
 	r := env.Rng
 	for env.Count() < env.N {
-		switch k := r.Intn(31); {
+		switch k := r.Intn(34); {
+		case k >= 31:
+			genShadow(env, 0)
 		case k >= 28:
 			genEval(env, 0)
 		case k < 9:
